@@ -76,8 +76,24 @@ def _rs(s, v):
             g = float(fr(v['g'][o][m]))
             if not abs(lin[o, m] - g) <= RTOL * (1 + abs(g)):
                 bad.append(('linearize', o, m, float(lin[o, m]), g))
+    if not bad and s['nv'] == 2:
+        # the same scenario under a dyadic change of variables x -> (2^-12 x1, 2^7 x2): same values, gradients divided by
+        # the factors.  Badly scaled inputs (condition number of the design matrix about 1e9): compared at 1e-6.
+        sc = np.array([2.0 ** -12, 2.0 ** 7])
+        sur2 = make_surrogate('rs')
+        sur2.train(x * sc, y)
+        pred2 = np.atleast_1d(np.asarray(sur2.predict(q * sc), dtype=float)).ravel()
+        lin2 = np.atleast_2d(np.asarray(sur2.linearize(q * sc), dtype=float))
+        for o in range(len(s['c'])):
+            w = float(fr(v['f'][o]))
+            if not abs(pred2[o] - w) <= 1e-6 * (1 + abs(w)):
+                bad.append(('predict, inputs scaled by (2^-12, 2^7)', o, float(pred2[o]), w))
+            for m in range(2):
+                g = float(fr(v['g'][o][m])) / sc[m]
+                if not abs(lin2[o, m] - g) <= 1e-6 * (abs(g) + 1 / sc[m]):
+                    bad.append(('linearize, inputs scaled by (2^-12, 2^7)', o, m, float(lin2[o, m]), g))
     return {'bad': bad, 'clause': 'ResponseSurface does not reproduce the quadratic (%s)' %
-            ('value' if any(b[0] == 'predict' for b in bad) else 'gradient')}
+            ('value' if any(b[0].startswith('predict') for b in bad) else 'gradient')}
 
 
 def _lookup(s, v):
@@ -105,6 +121,28 @@ def _lookup(s, v):
             w = float(v['pred'][i][o])
             if not abs(p[o] - w) <= tol * (1 + abs(w)):
                 bad.append((i, o, float(p[o]), w))
+    if not bad and s['sur'].startswith('kriging'):
+        # history: a training cache file written by an earlier training on the SAME inputs with other outputs must not
+        # be served for these outputs
+        import os
+        import tempfile
+        import openmdao.api as om
+        d_ = tempfile.mkdtemp(dir=os.environ.get('OPENMDAO_WORKDIR') or None)
+        try:
+            cache = os.path.join(d_, 'krig_cache.npz')
+            first = om.KrigingSurrogate(training_cache=cache)
+            first.train(x.copy(), (2.0 * y + 1.0).copy())
+            second = om.KrigingSurrogate(training_cache=cache)
+            second.train(x.copy(), y.copy())
+            for i in range(len(x)):
+                p = np.atleast_1d(np.asarray(second.predict(x[i].copy()), dtype=float)).ravel()
+                for o in range(y.shape[1]):
+                    w = float(v['pred'][i][o])
+                    if not abs(p[o] - w) <= tol * (1 + abs(w)):
+                        bad.append(('after a cache file of another training', i, o, float(p[o]), w))
+        finally:
+            import shutil
+            shutil.rmtree(d_, ignore_errors=True)
     return {'bad': bad, 'clause': '%s: predict at a training input differs from the training output' % s['sur']}
 
 
